@@ -119,7 +119,7 @@ def run(tier, seed):
     # the consumer's code can also be the projection function of evaluate_bounded: every raise point,
     # validated against spec/EvalBounded.tla (bindings undone, limit restored)
     from . import c17
-    c17.family(chk, tier, seed, only=[0, 3, 7, -1])
+    c17.family(chk, tier, seed, only=[0, 3, 7, -2, -1])
     need = ["Close_close", "Close_drop", "Close_raise", "Close_break", "DoNativeRaise", "DoAnswer", "DoExhausted"]
     missing = [e for e in need if not chk.events.get(e)]
     if missing:
